@@ -354,3 +354,31 @@ func VfSweepScenario() {
 }
 
 var _ = vfRegister("VfSweepScenario", VfSweepScenario)
+
+// VfSweepNewFails (C14): a provider constructor that returns an error leaves
+// no goroutine behind (the default keystore it may have started included).
+func VfSweepNewFails() {
+	vfHashReal()
+	self, err := peer.Decode("12BoooooPEER")
+	vfAssert(err == nil, "sweep/setup")
+	sw := &vfSwarm{bucket: 3}
+	log := &vfAddProviderLog{self: self, unreachable: map[peer.ID]bool{}}
+	opts := []Option{WithPeerID(self), WithRouter(sw), WithMessageSender(log),
+		WithSelfAddrs(func() []ma.Multiaddr { return nil }),
+		WithAddLocalRecord(func(context.Context, mh.Multihash) error { return nil })}
+	switch vfChoose("fault", 3) {
+	case 0: // rejected only by the connectivity checker, after the default keystore was started
+		opts = append(opts, WithConnectivityCheckOnlineInterval(0))
+	case 1: // rejected by the option itself
+		opts = append(opts, WithReplicationFactor(0))
+	case 2: // a required option is missing
+		opts = opts[1:]
+	}
+	prov, perr := New(opts...)
+	vfAssert(perr != nil && prov == nil, "sweep/faulty-construction-is-an-error")
+	vfWaitIdle()
+	vfAssert(vfLiveGoroutines() == 1, "sweep/failed-constructor-leaves-no-goroutine")
+	vfReach("sweep/new-fails-end")
+}
+
+var _ = vfRegister("VfSweepNewFails", VfSweepNewFails)
